@@ -34,21 +34,24 @@ def audit_sources(notes):
     return not bad
 
 
-def translate(notes):
+def translate(notes, harness=None):
     rep = os.path.join(CACHE, "translate.json")
+    env = dict(ENV, KT_CACHE=CACHE)
+    if harness: env["KT_HARNESS"] = harness
     r = sh([sys.executable, os.path.join(ROOT, "tools/translate.py"),
-            os.path.join(COQ, "theories/Gen/Generated.v"), rep])
+            os.path.join(COQ, "theories/Gen/Generated.v"), rep], env=env)
     if r.returncode != 0:
         notes.append("translator failed: " + r.stdout[-300:]); return None
     tr = json.load(open(rep))
-    notes.append("translator: %d items regenerated from the sources, missing=%s, changed=%s" % (len(tr["items"]), tr["missing"], tr["changed"]))
+    obs = [k for k, v in tr["items"].items() if v.get("how") == "observed"]
+    notes.append("translator: %d items regenerated from the sources, observed instead of translated=%s, missing=%s, changed=%s" % (len(tr["items"]), obs, tr["missing"], tr["changed"]))
     return tr
 
 
-def build_coq(prop, notes):
+def build_coq(prop, notes, harness=None):
     """returns dict(ok, obligations, discharged, failing, theorems, axioms, model_ok)"""
     res = dict(ok=False, obligations=0, discharged=0, failing=None, theorems=[], axioms=[], model_ok=False)
-    tr = translate(notes)
+    tr = translate(notes, harness)
     if tr is None:
         res["failing"] = "translate"; return res
     res["translator"] = tr
